@@ -701,6 +701,11 @@ func (p *c08) RunCase(ctx *runner.Ctx) runner.CaseResult {
 	stateNo := rest / 2
 	f := c08FaultList[fi]
 	r := mon.Rng(ctx.Seed, "C08", ctx.Case)
+	if ctx.Case < 2 {
+		// a REGISTERED Go updater whose result the table refuses: whatever it did to the values it was handed (replaced
+		// them, edited strings, list elements, map members, set members in place), the stored item is what it was
+		(&c20{}).rejectedNativeUpdate(x, adapt.Adapters[ctx.Case])
+	}
 	spec := ixSpec("tbl08", true)
 	other := mon.SpecHashOnly("oth08")
 	lsiOnly := adapt.TableSpec{Name: "lsi08", Hash: "h", Range: "r", Billing: "PAY_PER_REQUEST", Indexes: []adapt.IndexSpec{{Name: "lonly", Hash: "h", Range: "lo", Local: true}}}
